@@ -234,6 +234,7 @@ inductive XExpr
   | tab (n : XExpr) (e : XExpr)                            -- `tab(n, e)`
   | tup (args : List XExpr)
   | call (f : Nat) (args : List XExpr)
+  | bi (name : String) (args : List XExpr)                 -- a built-in of two and more arguments (see `biPlace`)
   deriving Repr, Inhabited
 
 inductive XStmt
@@ -346,6 +347,92 @@ def inCallee {α} (callee : Store) (m : XM α) : XM α := fun s =>
   | .err c x => .err c x
   | .haz h => .haz h
   | .unmodelled => .unmodelled
+
+/-! ### built-ins of two and more arguments: which cell receives the result
+
+Read in blocc/builtin/builtin_{atan2,max,min,mod,pow,strpos,replace,clamp,round,hex,hash,raw,substr,lsubstr,rsubstr,
+subraw,tokenize}.cpp (the end of every `value()`): the result is written into an operand only when that operand is NOT
+flagged LVALUE, in a fixed order, otherwise into a new pool slot:
+* `if (!a0.lvalue()) {a0.swap(v); return a0;} if (!a1.lvalue()) {a1.swap(v); return a1;} return ctx.allocate(v);`
+  (atan2, max, min, mod, strpos, replace; the macro LVAL2 in pow) = `xlval2 v x0 x1`; a third argument is never reused;
+* `if (a0.lvalue()) return ctx.allocate(v); a0.swap(v); return a0;` (clamp, round, hex, hash, raw, tokenize, and the
+  substr family, which edits a temporary string in place: `val.literal()->assign(…)`) = `xlval1 v x0`;
+* `return val;` — the cell of the first argument handed through unchanged (null / degenerate cases) = `thru`;
+* `hex(null, …)`: a new slot whatever the argument = `fresh`.
+`input` and `read` store into their first argument BY DESIGN (it names the variable that receives the line / the bytes);
+they are output parameters, not operands, and are not in this table. The VALUE is Model/Builtins.lean's `evalBuiltin`
+(tied by C10). Simplification, stated: every argument is evaluated, left to right, before the built-in looks at any of
+them; the C++ skips the later arguments in some null branches of substr / tokenize / replace / strpos / raw / hex — not
+observable for arguments without effects, which is what the correspondence family generates. -/
+
+inductive BiPlace
+  | thru | fresh | l1 | l2
+  deriving DecidableEq, Repr
+
+def biEmpty : Val → Bool
+  | .str [] => true
+  | .raw [] => true
+  | _ => false
+
+/-- the `return val;` branches of substr / subraw (`three` = a length argument may follow) and lsubstr / rsubstr -/
+def subThru (three : Bool) (vs : List Val) : Bool :=
+  match vs with
+  | a0 :: a1 :: rest =>
+    a0.type.major != .none &&
+      (a1.isNull || a0.isNull || (three && (match rest with | a2 :: _ => a2.isNull | [] => false)) || biEmpty a0)
+  | _ => false
+
+/-- Placement of every built-in of arity ≥ 2, from the argument VALUES (the flags are read by `xplaceBi`). -/
+def biPlace (name : String) (vs : List Val) : Option BiPlace :=
+  let a0 := vs.headD (.null Ty.none)
+  let a1 := (vs.drop 1).headD (.null Ty.none)
+  let a2 := (vs.drop 2).headD (.null Ty.none)
+  match name with
+  | "atan2" | "max" | "min" | "mod" | "pow" => some .l2
+  | "strpos" =>
+    -- an untyped third argument with non-null strings: `if (val.lvalue()) allocate else val.swap(v)`
+    if vs.length > 2 && a0.type.major == .str && !a0.isNull && !a1.isNull && a2.type.major == .none then some .l1 else some .l2
+  | "replace" =>
+    if a0.type.major == .str && (a1.isNull || a0.isNull) then some .thru
+    else if a0.type.major == .str && biEmpty a1 then some .l1       -- `val.lvalue() ? allocate(val.clone()) : val`
+    else some .l2
+  | "clamp" =>
+    if (a0.type.major == .int || a0.type.major == .num) && (a0.isNull || a1.isNull || a2.isNull) then some .thru else some .l1
+  | "round" =>
+    if (a0.type.major == .num || a0.type.major == .imag) && a0.isNull then some .thru else some .l1
+  | "hex" => if a0.isNull then some .fresh else some .l1
+  | "hash" | "tokenize" => some .l1
+  | "raw" => (match a0 with | .raw _ => some .thru | _ => some .l1)
+  | "substr" | "subraw" => if subThru true vs then some .thru else some .l1
+  | "lsubstr" | "rsubstr" => if subThru false vs then some .thru else some .l1
+  | _ => none
+
+/-- the value: Model/Builtins.lean -/
+def biValue (name : String) (vs : List Val) : Res Val :=
+  match evalBuiltin (m := Res) Fmt.fmt16g name (vs.map fun v => Res.ok v) with
+  | some r => r
+  | none => .unmodelled
+
+def xplaceBi (p : BiPlace) (v : Val) (xs : List XLoc) : XM XLoc :=
+  match p, xs with
+  | .thru, x0 :: _ => XM.pure x0
+  | .fresh, _ => xalloc v
+  | .l1, x0 :: _ => xlval1 v x0
+  | .l2, x0 :: x1 :: _ => xlval2 v x0 x1
+  | _, _ => XM.fail .unmodelled
+
+/-- the argument cells, in order, each with the log length at the time it was obtained (for `checkHeld`) -/
+def biArgs (ev : XExpr → XM XLoc) : List XExpr → List (XLoc × Nat) → XM (List (XLoc × Nat))
+  | [], acc => XM.pure acc
+  | a :: as, acc => XM.bind (ev a) (fun x => XM.bind logLen (fun n => biArgs ev as (acc ++ [(x, n)])))
+
+def biHeld : List (XLoc × Nat) → XM Unit
+  | [] => XM.pure ()
+  | (x, n) :: rest => XM.bind (checkHeld x n) (fun _ => biHeld rest)
+
+def xgets : List XLoc → XM (List Val)
+  | [] => XM.pure []
+  | x :: rest => XM.bind (xget x) (fun c => XM.bind (xgets rest) (fun vs => XM.pure (c.val :: vs)))
 
 /-! ### `Expression::value(ctx)` -/
 
@@ -494,6 +581,13 @@ def evalX (F : List XFun) : Nat → XExpr → XM XLoc
         match ret with
         | some v => xalloc v
         | none => xalloc (.null Ty.none)))
+    | .bi name args =>
+      XM.bind (biArgs (evalX F fuel) args []) (fun xn =>
+      XM.bind (biHeld xn) (fun _ =>
+      XM.bind (xgets (xn.map (·.1))) (fun vs =>
+      match biPlace name vs with
+      | none => XM.fail .unmodelled
+      | some p => XM.bind (XM.lift (biValue name vs)) (fun v => xplaceBi p v (xn.map (·.1))))))
 
 /-- One statement of the main program: `x_i = e;`, `do e;` (`return` ends the run and is not a store effect). -/
 def execX (F : List XFun) (fuel : Nat) : XStmt → XM Unit
